@@ -3,13 +3,14 @@
  "property": ["C05"],
  "entry": "h_run_internal",
  "enforce": ["events_run_internal"],
- "replace": ["events_immediate_get", "events_network_get", "events_network_select", "events_timer_min", "events_timer_get", "doevent"],
+ "replace": ["doevent"],
  "annotate": ["events/events.c"],
- "defines": ["VERIF_HALLOC", "PLEN=0"],
- "models": ["models/ev_atexit.c"],
+ "defines": ["VERIF_HALLOC"],
+ "models": ["models/ev_atexit.c", "models/ev_disp_sources.c"],
  "expect_loops": ["events_run_internal"],
+ "cbmc": ["--object-bits", "9"],
  "timeout": 200,
- "assumptions": ["event sources replaced by their abstract contracts with the ghost order monitor (models/ev_disp.h); each is implied by the module contract enforced in C04/imm_get, C04/net_get, C04/net_select, C05/timer_min (C04 dir), C04/timer_get (paper step: projection of the module state onto the monitor)",
+ "assumptions": ["event sources replaced by abstract models with the ghost order monitor (models/ev_disp_sources.c: precondition asserted, result arbitrary within the postcondition); each is implied by the module contract enforced in C04/imm_get, C04/net_get, C04/net_select, C05/timer_min (C04 dir), C04/timer_get (paper step: projection of the module state onto the monitor)",
                  "doevent replaced by its contract (enforced in C04/rec_doevent); the callback is abstract: any result, may request an interrupt, may (un)register anything (the monitor forgets all it knew)",
                  "both loops closed by loop contracts (any number of callbacks); termination is not claimed",
                  "asynchronous signal handlers setting interrupt_requested between two statements are not modelled (only callbacks set it)"]
@@ -22,7 +23,6 @@
 size_t g_live; struct eventrec * g_lastrec; struct eventrec * g_lastfreed;
 EV_DISP_GHOSTS;
 #include "events/events.c"
-#include "../C04/rec.h"
 #include "../C05/disp.h"
 
 void
@@ -30,7 +30,6 @@ h_run_internal(void)
 {
 	int rc;
 
-	REC_MK_POOL();
 	DISP_START();
 	g_user_done = NULL;
 	int intr0 = interrupt_requested;
